@@ -656,6 +656,13 @@ func TestC04Overlap(t *testing.T) {
 		}()
 		k := c.Int("setups", 2, 3)
 		lockstep := c.Chance("lockstep", 1, 2)
+		// Half of the cases: the first setup is well under way (1..5 of its 6
+		// messages forwarded) when the others are dialled.
+		headStart := 0
+		if c.Chance("head-start", 1, 2) {
+			headStart = c.Int("head-start.messages", 1, 5)
+			c.Class(fmt.Sprintf("overlap/head-start-%d", headStart))
+		}
 		var cs []*c16Conn
 		dirs := ""
 		for i := 0; i < k; i++ {
@@ -667,15 +674,12 @@ func TestC04Overlap(t *testing.T) {
 			cc := &c16Conn{conn: wire.Dial(w.nodes[x], w.nodes[y]), a: x, b: y}
 			cs = append(cs, cc)
 			w.conns = append(w.conns, cc)
+			if i == 0 && headStart > 0 {
+				w.advance(cc, headStart)
+			}
 			time.Sleep(2 * time.Millisecond)
 		}
-		if c.Chance("head-start", 1, 2) {
-			// The first setup is well under way (1..5 of its 6 messages forwarded)
-			// when the others begin.
-			w.headStart = c.Int("head-start.messages", 1, 5)
-			c.Class(fmt.Sprintf("overlap/head-start-%d", w.headStart))
-		}
-		w.log("overlapping setups:%s (lockstep=%v, head start %d)", dirs, lockstep, w.headStart)
+		w.log("overlapping setups:%s (lockstep=%v, head start %d)", dirs, lockstep, headStart)
 		w.drive(cs, lockstep, -1)
 		if w.inconcl {
 			c.Class("inconclusive-time-budget")
